@@ -48,6 +48,9 @@ func weightValue(fam string, n int, rs uint64, i, j int) int64 {
 		return int64(i*1000 + j + 1)
 	case "zero":
 		return 0
+	case "small":
+		// one digit, asymmetric: short rows for the large instances
+		return int64((i*7 + j*13) % 10)
 	case "const":
 		return 7
 	case "stair":
@@ -161,7 +164,11 @@ func sectionOf(sizes []int, ws, es, p int) string {
 	for k := 0; k < p; k++ {
 		off += sizes[k]
 	}
-	l := sizes[p]
+	return sectionAt(off, sizes[p], ws, es)
+}
+
+// sectionAt classifies a write of l bytes at byte offset off.
+func sectionAt(off, l, ws, es int) string {
 	switch {
 	case off < ws:
 		if off+l > ws {
@@ -183,13 +190,17 @@ func sectionOf(sizes []int, ws, es, p int) string {
 // for header writes the keyword of the header line in which the write begins.
 // header = the bytes of the fault-free output before the weight section.
 func locationOf(sizes []int, ws, es int, header string, p int) string {
-	sect := sectionOf(sizes, ws, es, p)
-	if sect != "header" && sect != "header+weights" {
-		return sect
-	}
 	off := 0
 	for k := 0; k < p; k++ {
 		off += sizes[k]
+	}
+	return locationAt(off, sizes[p], ws, es, header)
+}
+
+func locationAt(off, l, ws, es int, header string) string {
+	sect := sectionAt(off, l, ws, es)
+	if sect != "header" && sect != "header+weights" {
+		return sect
 	}
 	if off > len(header) {
 		return sect
